@@ -127,7 +127,13 @@ def c18():
     a = create("f0", "/a", L_FIXED, PX5)
     ln = lambda soft: {"op": "ln", "soft": soft, "src": {"file": "f0", "path": "/a"}, "dst": {"file": "f0", "path": "/l"}}
     rn = lambda path, m, held=False: {"op": "rename", "file": "f0", "path": path, "map": m, "held": held}
+    cells = {"A": {"chunks": [{"bin1_id": [0], "bin2_id": [1], "count": [2]}], "form": "df", "bin_extra": None},
+             "B": {"chunks": [{"bin1_id": [1, 2], "bin2_id": [1, 4], "count": [5, 6]}], "form": "df", "bin_extra": None}}
+    sc = {"op": "scool", "layout": L_FIXED, "symmetric": True, "dtypes": {"count": "int32"}, "cells": cells,
+          "bins_as_dict": False, "metadata": None, "assembly": None, "fault": None, "file": "f1", "mode": "w"}
+    rs = {"op": "rename", "file": "f1", "path": "/cells/A", "map": {"c1": "chrONE"}, "held": False}
     return [
+        [sc, rs],
         [a, ln(False), rn("/l", {"c1": "chromosome_one"}), rn("/a", {"c2": "x"})],
         [a, ln(True), {"op": "hold", "file": "f0", "path": "/a"}, rn("/l", {"c1": "c2", "c2": "c1"}),
          rn("/a", {"c1": "z"}, held=True)],
